@@ -168,10 +168,18 @@ def inverse_topology(outer, update, topology, inverse=None, multi_updates=True):
                     inner = outer
 
                 for child, child_update in update.items():
+                    child_path = path
+                    if isinstance(child_update, dict):
+                        # variables that the sub-topology does not
+                        # mention live under their own name
+                        child_path = path.copy()
+                        for update_key in child_update.keys():
+                            if update_key not in child_path:
+                                child_path[update_key] = (update_key,)
                     inverse = inverse_topology(
                         inner + (child,),
-                        update[child],
-                        path,
+                        child_update,
+                        child_path,
                         inverse,
                         multi_updates)
             else:
